@@ -178,6 +178,13 @@ def make_dp(i, kind, nc, nb):
         data = Obj('Gauge', data_points=[Obj('NumberPoint', value=v)])
     elif kind == 'empty':
         data = Obj('Gauge', data_points=[])
+    elif nc == 'sym':
+        # histogram whose two lists have ARBITRARY lengths (pyvc/symlist.py): the shape clause is then decided for every length, not for 0..3
+        from pyvc.symlist import symlist
+        lc, lb = z3.Int(f'len_counts{i}'), z3.Int(f'len_bounds{i}')
+        data = Obj('Histogram', data_points=[Obj('HistPoint', bucket_counts=symlist(lc, lambda: fresh_int('c')), explicit_bounds=symlist(lb, lambda: fresh('b', z3.RealSort())),
+                                                 count=z3.Int(f'cnt{i}'), sum=z3.Real(f'sum{i}'))])
+        data.f['lens'] = (lc, lb)
     else:
         data = Obj('Histogram', data_points=[Obj('HistPoint', bucket_counts=[z3.Int(f'c{i}_{j}') for j in range(nc)],
                                                  explicit_bounds=[z3.Real(f'b{i}_{j}') for j in range(nb)], count=z3.Int(f'cnt{i}'), sum=z3.Real(f'sum{i}'))])
@@ -194,7 +201,7 @@ class ExportUnit(Unit):
     name = 'OTelLineageExporter.export'
     targets = (f'{BRIDGE}::OTelLineageExporter.export',)
     required_covers = ('facet sent', 'nothing sent')
-    bounded = {'metrics per export': '1..2', 'allow-list entries': '0..2', 'histogram counts/bounds lengths': '0..3 each'}
+    bounded = {'metrics per export': '1..2', 'allow-list entries': '0..2', 'histogram counts/bounds lengths': 'ARBITRARY in the two symbolic-length shapes (pyvc/symlist.py); 0..3 each in the enumerated shapes'}
     mutants = (
         ('allow-list check skipped', f'{BRIDGE}::OTelLineageExporter.export', 'not self._is_allowed(name):', 'not self._is_allowed(name) and False:', 'C16.'),
         ('histogram padded to len(bounds)', f'{BRIDGE}::OTelLineageExporter.export', 'bucket_counts.extend([0] * (len(explicit_bounds) + 1 - len(bucket_counts)))', 'bucket_counts.extend([0] * (len(explicit_bounds) - len(bucket_counts)))', 'C16.hist_shape'),
@@ -210,6 +217,8 @@ class ExportUnit(Unit):
             for nc, nb in ((0, 0), (1, 0), (2, 1), (1, 2), (3, 1), (0, 2)) if tier == 'quick' else [(a, b) for a in range(4) for b in range(4)]:
                 out.append((al, ('hist',), nc, nb, False))
             out.append((al, ('counter', 'hist'), 2, 1, False))
+            out.append((al, ('hist',), 'sym', 'sym', False))
+            out.append((al, ('hist', 'hist'), 'sym', 'sym', False))
             out.append((al, ('gauge', 'counter'), 0, 0, True))
         return out
 
@@ -227,6 +236,11 @@ class ExportUnit(Unit):
         dps, names = zip(*[make_dp(i, k, nc, nb) for i, k in enumerate(kinds)])
         metrics = Obj('MetricsData', resource_metrics=[Obj('RM', scope_metrics=[Obj('SM', scope=Obj('Scope', name='s'), metrics=list(dps))])])
         ex.model_vars = dict(**{f'n{i}': n for i, n in enumerate(names)}, **{f'p{i}': p for i, p in enumerate(pats or [])})
+        for i, d in enumerate(dps):
+            if 'lens' in d.f['data'].f:
+                lc, lb = d.f['data'].f.pop('lens')
+                ex.assume(z3.And(lc >= 0, lb >= 0))
+                ex.model_vars.update({f'len_counts{i}': lc, f'len_bounds{i}': lb})
         ex.replay_info = dict(allow=al, kinds=list(kinds), nc=nc, nb=nb, raw=raw)
         res = ex.call_closure(closure(BRIDGE, 'OTelLineageExporter.export'), [me, metrics], {})
         ex.outcome = str(res)
@@ -251,6 +265,17 @@ class ExportUnit(Unit):
                       'C16.lockdown: with an empty allow-list no metric key is exported', z3.Or(*origins) if al != 0 else False)
             if isinstance(val, dict):
                 counts, buckets = val.get('counts'), val.get('buckets')
+                from pyvc.symlist import is_symlist
+                if is_symlist(counts) or is_symlist(buckets):        # lists of arbitrary length: the clause is a formula over the two lengths, elements are generic
+                    ln = lambda v: v.f['n'] if is_symlist(v) else z3.IntVal(len(v))
+                    el = lambda v: [v.f['mk']()] if is_symlist(v) else list(v)
+                    ok_lists = (is_symlist(counts) or isinstance(counts, list)) and (is_symlist(buckets) or isinstance(buckets, list))
+                    ex.oblige('C16.hist_shape: len(counts) == len(buckets) + 1', z3.And(z3.BoolVal(ok_lists), ln(counts) == ln(buckets) + 1) if ok_lists else False)
+                    ex.oblige('C16.hist_shape: counts are ints, buckets floats, count int, sum float',
+                              ok_lists and all(B.kind_of(c) == 'int' for c in el(counts)) and all(B.kind_of(b) == 'float' for b in el(buckets))
+                              and B.kind_of(val.get('count')) == 'int' and B.kind_of(val.get('sum')) == 'float')
+                    ex.oblige('C16.hist_shape: exactly the four documented fields', set(val) == {'buckets', 'counts', 'count', 'sum'})
+                    continue
                 ex.oblige('C16.hist_shape: len(counts) == len(buckets) + 1', isinstance(counts, list) and isinstance(buckets, list) and len(counts) == len(buckets) + 1)
                 ex.oblige('C16.hist_shape: counts are ints, buckets floats, count int, sum float',
                           all(B.kind_of(c) == 'int' for c in counts) and all(B.kind_of(b) == 'float' for b in buckets)
@@ -275,10 +300,18 @@ class ExportUnit(Unit):
             def __init__(self, **k):
                 self.__dict__.update(k)
         L.calls = []
-        e = OTelLineageExporter.__new__(OTelLineageExporter)
-        e._allow = None if info['allow'] is None else {m.get(f'p{i}', '') for i in range(info['allow'])}
-        e._export_raw_data = info['raw']
-        e._lineage = L()
+        import os
+        allow = None if info['allow'] is None else {m.get(f'p{i}', '') for i in range(info['allow'])}
+        old_env = os.environ.get('OPENLINEAGE_EXPORT_RAW_DATA')
+        os.environ['OPENLINEAGE_EXPORT_RAW_DATA'] = 'true' if info['raw'] else 'false'
+        try:
+            e = OTelLineageExporter(L(), allow)            # the real constructor (attributes a changed tree adds are set up as in production)
+        finally:
+            if old_env is None:
+                os.environ.pop('OPENLINEAGE_EXPORT_RAW_DATA', None)
+            else:
+                os.environ['OPENLINEAGE_EXPORT_RAW_DATA'] = old_env
+        e._allow = allow                                    # (an empty set given to the constructor must stay an empty set: lock-down)
         dps = []
         for i, k in enumerate(info['kinds']):
             nm = m.get(f'n{i}', f'metric{i}')
@@ -289,7 +322,9 @@ class ExportUnit(Unit):
             elif k == 'empty':
                 d = O(data_points=[])
             else:
-                d = O(data_points=[O(bucket_counts=[1] * info['nc'], explicit_bounds=[1.0 * j for j in range(info['nb'])], count=info['nc'], sum=2.0)])
+                as_len = lambda v, key: max(0, int(str(m.get(key, 0)))) if v == 'sym' else v
+                nc_, nb_ = as_len(info['nc'], f'len_counts{i}'), as_len(info['nb'], f'len_bounds{i}')
+                d = O(data_points=[O(bucket_counts=[1] * nc_, explicit_bounds=[1.0 * j for j in range(nb_)], count=nc_, sum=2.0)])
             dps.append(O(name=nm, data=d))
         e.export(O(resource_metrics=[O(scope_metrics=[O(scope=O(name='s'), metrics=dps)])]))
         import fnmatch
